@@ -1,6 +1,8 @@
 (* C13 — ranges, sign conventions and classification predicates.  Statements only. *)
 From Coq Require Import Reals Bool.
 From VP Require Import Lib RLib Trig Compute Tables C13_range C13_causal C13_par C13_sign.
+From VP Require ObjModel ObjNames NbModel NbApi NbChecks.
+Import ObjNames List.ListNotations.
 Open Scope R_scope.
 
 (* phi computed from x,y and deltaphi (every pairing) lie in [-pi, pi] *)
@@ -101,6 +103,15 @@ Theorem C13_cosine_form : forall dd rr tol, 0 < rr ->
 Proof. exact cosine_form. Qed.
 
 (* non-vacuity *)
+
+(* the same laws hold in numba-compiled code: for these operations every program point of the numba-supported API has the
+   same outcome (class, coordinate system, field expressions over the generated compute definitions) through the
+   Numba overload layer as through the interpreter (T5 table, gen/NbApi*.v; exceptions: the C07 known findings) *)
+Theorem C13_compiled_ranged_are_the_interpreted_ones :
+  VP.NbChecks.agree_on [N_phi; N_theta; N_eta; N_rho; N_rho2; N_mag; N_mag2; N_costheta; N_cottheta; N_t; N_t2; N_tau; N_tau2; N_beta; N_gamma; N_rapidity; N_deltaphi; N_deltaangle; N_deltaeta; N_deltaR; N_deltaR2; N_deltaRapidityPhi; N_deltaRapidityPhi2; N_is_timelike; N_is_spacelike; N_is_lightlike; N_is_timelike_tol; N_is_spacelike_tol; N_is_parallel; N_is_antiparallel; N_is_perpendicular; N_is_parallel_tol]%list = true /\
+  Nat.ltb 100 (VP.NbChecks.count_on [N_phi; N_theta; N_eta; N_rho; N_rho2; N_mag; N_mag2; N_costheta; N_cottheta; N_t; N_t2; N_tau; N_tau2; N_beta; N_gamma; N_rapidity; N_deltaphi; N_deltaangle; N_deltaeta; N_deltaR; N_deltaR2; N_deltaRapidityPhi; N_deltaRapidityPhi2; N_is_timelike; N_is_spacelike; N_is_lightlike; N_is_timelike_tol; N_is_spacelike_tol; N_is_parallel; N_is_antiparallel; N_is_perpendicular; N_is_parallel_tol]%list) = true.
+Proof. vm_cast_no_check (conj (eq_refl true) (eq_refl true)). Qed.
+
 Example C13_nonvacuous :
   off_axis XY 1 2 /\ lg_ok LTheta 1 /\ (0 < 5 /\ 1 * 1 + 2 * 2 + 3 * 3 < 5 * 5) /\
   holds (rn (T_lorentz_dot XY LZ TT XY LZ TT 1 2 3 5 1 2 3 5)) (fun dd => dd = 11).
